@@ -35,6 +35,9 @@ OBLIGATIONS = [
     "C10_basis_collinear", "C10_gauge_basis", "C10_orthogonal", "C10_orthogonal_first_zero_refuted",
     "C10_direction_positive", "C10_mixing_orthogonal", "C10_space_shift_orthogonal", "C10_metric_is_trajectory_metric",
     "C10_script", "C10_script_joint", "C10_tie_ortho_basis", "C10_tie_wiring",
+    # extension: every branch of compute_orthonormal_basis, orthonormality
+    "C10_tie_ortho_branches", "C10_ortho_branches", "C10_ortho_branches_zero_pivot_refuted", "C10_orthonormal_branches",
+    "C10_orthonormal", "C10_orthonormal_metric_refuted", "C10_basis_collinear_branches",
 ]
 
 KINDS_GAUGE = ["logistic", "linear", "joint"]          # model kinds with the re-centring step
